@@ -16,8 +16,8 @@ VERIF = os.path.dirname(os.path.dirname(os.path.abspath(__file__)))
 SPEC = os.path.join(VERIF, "spec")
 HARNESS = os.path.join(VERIF, "harness")
 BUILD = os.path.join(VERIF, ".build")
-EVID = os.path.join(VERIF, "evidence")
-REPLAYS = os.path.join(VERIF, "replays")
+EVID = os.environ.get("VERIF_EVIDENCE_DIR") or os.path.join(VERIF, "evidence")
+REPLAYS = os.environ.get("VERIF_REPLAYS_DIR") or os.path.join(VERIF, "replays")
 TLA_CP = "/opt/veriftools/tla/tla2tools.jar:/opt/veriftools/tla/CommunityModules-deps.jar"
 NCPU = os.cpu_count() or 4
 
@@ -64,7 +64,18 @@ def build_harness(race=False):
         env["CGO_ENABLED"] = "1"
         cmd.insert(2, "-race")
     cmd.append(".")
-    p = subprocess.run(cmd, cwd=HARNESS, env=env, capture_output=True, text=True, timeout=900)
+    src = HARNESS
+    alt = os.environ.get("VERIF_REPO")      # development aid (seeded changes evaluated in a copy of /repo, in parallel)
+    if alt and os.path.abspath(alt) != "/repo":
+        src = scratch("verif-harness-")
+        for f in os.listdir(HARNESS):
+            if f.endswith(".go") or f in ("go.mod", "go.sum"):
+                shutil.copy(os.path.join(HARNESS, f), src)
+        gm = open(os.path.join(src, "go.mod")).read().replace("=> /repo", "=> " + os.path.abspath(alt))
+        open(os.path.join(src, "go.mod"), "w").write(gm)
+        out = os.path.join(src, "vh-race" if race else "vh")
+        cmd[cmd.index("-o") + 1] = out
+    p = subprocess.run(cmd, cwd=src, env=env, capture_output=True, text=True, timeout=900)
     if p.returncode != 0:
         raise Machinery("harness does not build against /repo:\n" + p.stdout + p.stderr)
     _built[key] = out
